@@ -56,20 +56,47 @@ Definition partial (e : eff) (w : world) : world :=
   | ENop => w
   end.
 
-(* fault oracle answer for one executed step; [base] = the exception is not an `Exception`
-   (KeyboardInterrupt, SystemExit): `except Exception` does not catch it *)
-Inductive fault := FNone | FBefore (base : bool) | FPartial (base : bool).
-Inductive res := RNormal | RExc | RBase.
+(* exception kinds a failing step can raise, with the part of Python's class hierarchy that the
+   handlers of the pipelines distinguish:
+     BaseException > Exception > {RuntimeError, ValueError, MemoryError, OSError > TimeoutError, others};
+     KeyboardInterrupt / SystemExit are BaseExceptions that are not Exceptions *)
+Inductive ekind := KRuntime | KValue | KOS | KTimeout | KMemory | KOther | KBase.
+Definition all_kinds : list ekind := [KRuntime; KValue; KOS; KTimeout; KMemory; KOther; KBase].
+
+(* the class named in an except clause *)
+Inductive hclass := HBase       (* bare except / BaseException *)
+                  | HException | HOS (* OSError, IOError, EnvironmentError *) | HTimeout | HValue
+                  | HRuntime | HMemory | HKeyboard.
+
+Definition catches1 (h : hclass) (k : ekind) : bool :=
+  match h, k with
+  | HBase, _ => true
+  | HException, KBase => false
+  | HException, _ => true
+  | HOS, KOS | HOS, KTimeout => true
+  | HTimeout, KTimeout => true
+  | HValue, KValue => true
+  | HRuntime, KRuntime => true
+  | HMemory, KMemory => true
+  | HKeyboard, KBase => true
+  | _, _ => false
+  end.
+Definition catches (hs : list hclass) (k : ekind) : bool := existsb (fun h => catches1 h k) hs.
+
+(* fault oracle answer for one executed step: it works, raises before doing anything, or raises after
+   doing part of its work; the exception kind is part of the answer *)
+Inductive fault := FNone | FBefore (k : ekind) | FPartial (k : ekind).
+Inductive res := RNormal | RRaised (k : ekind).
 
 Inductive prog :=
 | Skip
 | Step (lbl : nat) (e : eff)
-| Raise (lbl : nat)                 (* a raise statement: always an Exception *)
+| Raise (lbl : nat) (k : ekind)     (* a raise statement *)
 | Seq (a b : prog)
 | Loop (id : nat) (lbl : nat) (hdr : eff) (body : prog)
     (* for x in it: body  --  [cnt id] times (next(it) with effect hdr; body), then a last next(it) *)
-| Try (body handler : prog) (reraise catch_base : bool)
-    (* try: body  except [Exception]: handler [; raise] *)
+| Try (body handler : prog) (reraise : bool) (hs : list hclass)
+    (* try: body  except (hs): handler [; raise] *)
 | Choice (id : nat) (a b : prog).   (* if <run-time condition>: a else: b *)
 
 Definition seq_of (l : list prog) : prog := fold_right Seq Skip l.
@@ -78,7 +105,7 @@ Fixpoint has_unit (p : prog) : bool :=
   match p with
   | Skip => false
   | Step _ e => match e with EUnit => true | _ => false end
-  | Raise _ => false
+  | Raise _ _ => false
   | Seq a b => has_unit a || has_unit b
   | Loop _ _ h b => match h with EUnit => true | _ => has_unit b end
   | Try b h _ _ => has_unit b || has_unit h
@@ -98,8 +125,8 @@ Section Exec.
   Definition step (l : nat) (e : eff) (s : cfg) : res * cfg :=
     match f (cn s) with
     | FNone => (RNormal, mkC (S (cn s)) (apply e (wd s)) (l :: tr s))
-    | FBefore b => (if b then RBase else RExc, mkC (S (cn s)) (wd s) (l :: tr s))
-    | FPartial b => (if b then RBase else RExc, mkC (S (cn s)) (partial e (wd s)) (l :: tr s))
+    | FBefore k => (RRaised k, mkC (S (cn s)) (wd s) (l :: tr s))
+    | FPartial k => (RRaised k, mkC (S (cn s)) (partial e (wd s)) (l :: tr s))
     end.
 
   Fixpoint iter (k : nat) (one : cfg -> res * cfg) (s : cfg) : res * cfg :=
@@ -113,7 +140,7 @@ Section Exec.
     match p with
     | Skip => (RNormal, s)
     | Step l e => step l e s
-    | Raise l => (RExc, mkC (S (cn s)) (wd s) (l :: tr s))
+    | Raise l k => (RRaised k, mkC (S (cn s)) (wd s) (l :: tr s))
     | Seq a b => let (r, s1) := exec a s in
                  match r with RNormal => exec b s1 | _ => (r, s1) end
     | Loop id l h body =>
@@ -121,15 +148,15 @@ Section Exec.
                             (fun s0 => let (r0, s0') := step l h s0 in
                                        match r0 with RNormal => exec body s0' | _ => (r0, s0') end) s in
         match r with RNormal => step l ENop s1 | _ => (r, s1) end
-    | Try body h reraise catch_base =>
+    | Try body h reraise hs =>
         let (r, s1) := exec body s in
-        let handle :=
-          let (r2, s2) := exec h (mark (negb reraise && has_unit body) s1) in
-          match r2 with RNormal => (if reraise then r else RNormal, s2) | _ => (r2, s2) end in
         match r with
         | RNormal => (RNormal, s1)
-        | RExc => handle
-        | RBase => if catch_base then handle else (RBase, s1)
+        | RRaised k =>
+            if catches hs k then
+              let (r2, s2) := exec h (mark (negb reraise && has_unit body) s1) in
+              match r2 with RNormal => (if reraise then r else RNormal, s2) | _ => (r2, s2) end
+            else (r, s1)
         end
     | Choice id a b => if ch id then exec a s else exec b s
     end.
